@@ -418,7 +418,7 @@ func (x *Exec) frameObligations(f *frame, c *Contract, entry, final *Heap, args 
 		if fe.base == et {
 			okAll := true
 			for _, r := range fe.refs {
-				if isAllocRef(r) {
+				if isAllocRef(r) || isNil(r) {
 					continue
 				}
 				found := false
@@ -442,7 +442,7 @@ func (x *Exec) frameObligations(f *frame, c *Contract, entry, final *Heap, args 
 			for _, a := range allowed[k] {
 				ex = append(ex, not(eq(r, a.ref)))
 			}
-			cond = and(append([]string{retReach, "(bvult " + r + " " + refLit(AllocBase) + ")",
+			cond = and(append([]string{retReach, "(bvult " + r + " " + refLit(AllocBase) + ")", not(eq(r, NilRef)),
 				not(eq("(select "+fe.term+" "+r+")", "(select "+et+" "+r+")"))}, ex...)...)
 		} else {
 			i := x.g.Const("frame.i", fe.idx)
@@ -454,7 +454,7 @@ func (x *Exec) frameObligations(f *frame, c *Contract, entry, final *Heap, args 
 					ex = append(ex, not(and(eq(r, a.ref), eq(i, a.idx))))
 				}
 			}
-			cond = and(append([]string{retReach, "(bvult " + r + " " + refLit(AllocBase) + ")",
+			cond = and(append([]string{retReach, "(bvult " + r + " " + refLit(AllocBase) + ")", not(eq(r, NilRef)),
 				not(eq("(select (select "+fe.term+" "+r+") "+i+")", "(select (select "+et+" "+r+") "+i+")"))}, ex...)...)
 		}
 		x.oblige("frame", k+x.frameSuffix, props, cond, f.fn, token.NoPos)
